@@ -108,6 +108,13 @@ class Ev:
         if k == "lit":
             return ("lit", n["v"])
         if k == "mcall":
+            if n["m"] == "unwrap_or_else" and len(n["args"]) == 1 and n["args"][0]["k"] == "closure":
+                # x.unwrap_or_else(|e| d)  ==  x.unwrap_or(d) for a closure that is a plain expression of its environment
+                cl = n["args"][0]
+                e2 = dict(env)
+                for p_ in cl["params"]:
+                    self.bind(p_, ("unk", "error value"), e2)
+                return ("m", "unwrap_or", self.eval(n["recv"], env), (self.eval(cl["body"], e2),))
             return ("m", n["m"], self.eval(n["recv"], env), tuple(self.eval(a, env) for a in n["args"]))
         if k == "call":
             args = tuple(self.eval(a, env) for a in n["args"])
